@@ -350,6 +350,20 @@ def proof_obligations(res, prop, modules, extra_obligations):
             discharged += 1
         else:
             failed.append(name)
+    rechecked = None
+    if ok and res.tier == "thorough":
+        # independent re-check of the compiled property modules by leanchecker (replays every declaration in the kernel)
+        rechecked = True
+        for m in modules:
+            p = subprocess.run(["lake", "env", "leanchecker", f"Dm.Props.{m}"], cwd=LEAN, env=ENV, stdout=subprocess.PIPE,
+                               stderr=subprocess.STDOUT, text=True, timeout=1800)
+            n_thm += 1
+            if p.returncode == 0:
+                discharged += 1
+            else:
+                rechecked = False
+                failed.append(f"leanchecker Dm.Props.{m}")
+                res.coverage["leanchecker_output"] = p.stdout[-2000:]
     axioms_used = sorted({a for n in names for a in thms[n]})
     res.coverage.update({
         "obligations": n_thm,
@@ -359,7 +373,7 @@ def proof_obligations(res, prop, modules, extra_obligations):
         "trusted_base": [
             "Lean 4.33.0 kernel; axioms actually used by the property theorems: " + (", ".join(axioms_used) or "none"),
             "no sorry/admit/axiom/native_decide/bv_decide/implemented_by/unsafe in lean/ (scanned on this run)",
-        ],
+        ] + (["property modules re-checked by leanchecker on this run"] if rechecked else []),
     })
     return failed
 
